@@ -188,8 +188,12 @@ def _consumed(prog, b, x, locale_locals, after):
                         if rj != "term" and rs["rv"]["k"] == "Ref":
                             pl = rs["rv"]["place"]
                             f2 = [e for e in pl["p"] if e.startswith(".")]
+                            same_locale = pl["l"] == stored[1] or pl["l"] in backward_targets(b, stored[1]) or stored[1] in backward_targets(b, pl["l"]) \
+                                or bool(backward_targets(b, pl["l"]) & backward_targets(b, stored[1]))
                             if f2 and M.field_name(prog, LOCALE, int(f2[0][1:])) == "strings" and b.dominates(stored[0], i):
-                                return None
+                                if same_locale:
+                                    return None
+                                return ("#count", "top_locale_string_count is the length of another locale's table, not of the one just stored")
     return ("#count", "top_locale_string_count is not the length of the table just stored")
 
 
